@@ -10,7 +10,10 @@
 (*   [in |-> processes that entered and have not exited,                    *)
 (*    dying |-> processes announced as being killed].                       *)
 (* A process in `in` may vanish without an "exit" line only if it is in     *)
-(* `dying` (the silent Die step).                                           *)
+(* `dying` (the silent Die step).  "refused" (AcquireLock returned an error *)
+(* to a process that lives on) and "gc" (a garbage collection ran in the    *)
+(* process) do not change the journal state: whatever they do behind the    *)
+(* scenes must not let a second process enter.                              *)
 (***************************************************************************)
 EXTENDS Naturals, Sequences, FiniteSets
 
@@ -22,6 +25,8 @@ C28_Mutex(j, who, what) == what = "enter" => (j.in \ j.dying) \ {who} = {}
 JournalWF(j, who, what) ==
   CASE what = "enter" -> who \notin j.in
     [] what = "exit" -> who \in j.in
+    [] what = "refused" -> who \notin j.in      \* an attempt that was turned down; the process lives on
+    [] what = "gc" -> TRUE                      \* a garbage collection in that process
     [] what = "killing" -> TRUE
     [] what = "killed" -> who \in j.dying
     [] OTHER -> FALSE
